@@ -35,29 +35,18 @@ End LineSearchRing.
 
 Theorem fixed_modes_linesearch : forall (F : Type) (rO rI : F) (radd rmul rsub : F -> F -> F) (ropp : F -> F),
   ring_theory rO rI radd rmul rsub ropp (@eq F) ->
-  forall (W X : Type) upd stop normf pre post ls_on ls_accept (jump : nat -> st (list (list F)) W X -> F) lsw lsx
+  forall (W X : Type) upd stop normf pre pre_on post ls_on ls_accept (jump : nat -> st (list (list F)) W X -> F) lsw lsx
   a n fixed budget tol (s s' : st (list (list F)) W X) d m,
-  run upd stop normf false pre (fun _ => false) post ls_on ls_accept (fun it s => ls_mat radd rsub rmul (jump it s)) lsw lsx
+  run upd stop normf false pre pre_on post ls_on ls_accept (fun it s => ls_mat radd rsub rmul (jump it s)) lsw lsx
       a n fixed budget tol s = Ok s' ->
   In m (eff_fixed a n fixed) -> nth m (facs s') d = nth m (facs s) d.
 Proof.
-  intros F rO rI radd rmul rsub ropp Rth W X upd stop normf pre post ls_on ls_accept jump lsw lsx a n fixed budget tol s s' d m.
+  intros F rO rI radd rmul rsub ropp Rth W X upd stop normf pre pre_on post ls_on ls_accept jump lsw lsx a n fixed budget tol s s' d m.
   apply run_fixed. intros _ it s0 x. exact (ls_mat_same F rO rI radd rmul rsub ropp Rth (jump it s0) x).
 Qed.
 
-(* the orthogonalise hook (an arbitrary rewrite of every factor before the sweep) breaks fixed modes *)
-Lemma orthogonalise_breaks_fixed : exists upd stop normf pre pre_on post ls_on ls_accept lsf lsw lsx (s s' : st nat unit unit),
-  run upd stop normf false pre pre_on post ls_on ls_accept lsf lsw lsx Parafac 2 [0] 1 true s = Ok s' /\
-  In 0 (eff_fixed Parafac 2 [0]) /\ (forall it s x, lsf it s x x = x) /\ nth 0 (facs s') 0 <> nth 0 (facs s) 0.
-Proof.
-  exists (fun _ _ _ => (5, tt)), (fun _ _ => false), (fun s => s), (fun _ s => mkst (wts s) (map S (facs s)) (aux s)), (fun _ => true),
-         (fun _ _ => tt), (fun _ => false), (fun _ _ _ => false), (fun _ _ l c => c), (fun _ _ l c => c), (fun _ _ _ => tt),
-         (mkst tt [0; 0] tt), (mkst tt [1; 5] tt).
-  split; [reflexivity|]. split; [now left|]. split; [reflexivity | discriminate].
-Qed.
-
 Lemma normalize_breaks_fixed : exists upd stop normf (s s' : st nat unit unit),
-  run upd stop normf true (fun _ s => s) (fun _ => false) (fun _ _ => tt) (fun _ => false) (fun _ _ _ => false)
+  run upd stop normf true (fun _ _ _ => 0) (fun _ => false) (fun _ _ => tt) (fun _ => false) (fun _ _ _ => false)
       (fun _ _ l c => c) (fun _ _ l c => c) (fun _ _ _ => tt) Parafac 2 [0] 1 true s = Ok s' /\ In 0 (eff_fixed Parafac 2 [0]) /\
   nth 0 (facs s') 0 <> nth 0 (facs s) 0.
 Proof.
